@@ -222,4 +222,56 @@ def r6(F, R):
     c01.r4(F, R)
 
 
-RULES = [("R5", r5, None), ("R1", r1, None), ("R2", r2, None), ("R3", r3, None), ("R4", r4, None), ("R6", r6, None)]
+def r7(F, R):
+    """Each scenario is counted in exactly ONE of passed / skipped / failed: whenever an attempt is classified as failed, skipped or
+    retried (`scenarios.<k> += 1`), the per-scenario marker must be present when the handler returns — inserted on that path, or
+    learned to be there already (`get(..)` / `insert(..)` returned `Some`) and not removed afterwards — because `Scenario::Finished`
+    counts a scenario as passed exactly when it finds no marker; and `passed` is incremented only where the marker is learned absent."""
+    T = WD.table(F, SUM)
+    info = F.adt(SUM)
+    marker = [i for i, f in enumerate(info["variants"][0]["fields"]) if "HashMap<" in f.get("ty", "") and "Indicator" in f.get("ty", "")]
+    if len(marker) != 1:
+        raise Unverifiable(f"Summarize's per-scenario marker map: {len(marker)} candidate fields")
+    mi = marker[0]
+
+    def on_marker(args):
+        return bool(args) and D.mentions(args[0], lambda x: x[0] == "field" and x[2] == mi and D.mentions(x[1], lambda y: y == T.self_root))
+    n = 0
+    for r in T.rows:
+        cls = [w for w in r.writes if w.path[0] == "scenarios" and w.path[-1] in ("failed", "skipped", "retried", "passed") and w.op == "+1"]
+        if not cls:
+            continue
+        p = r.p
+        ops = [(i, re.search(r"::(insert|remove|get|get_mut|contains_key|entry)$", e[1]).group(1), e) for i, e in enumerate(p.effects)
+               if e[0] == "call" and re.search(r"HashMap(::<.*>)?::(insert|remove|get|get_mut|contains_key|entry)$", e[1]) and on_marker(e[2])]
+        present = None     # None unknown, True, False: what the row knows about the marker at its end
+        for i, op, e in ops:
+            term = ("call", e[1], e[2], e[4])
+            learned = [o for a, o in p.conds if a[0] == "discr" and a[1] == term]
+            truth = [o for a, o in p.conds if a == term]
+            if op == "insert":
+                present = True
+            elif op == "remove":
+                present = False
+            elif op in ("get", "get_mut") and learned:
+                present = learned[0] == "Some"
+            elif op == "contains_key" and truth:
+                present = bool(truth[0])
+            elif op == "entry":
+                present = True
+        removed_none = any(op == "remove" and [o for a, o in p.conds if a[0] == "discr" and a[1] == ("call", e[1], e[2], e[4])] == ["None"] for i, op, e in ops)
+        absent_learned = any(op in ("get", "get_mut") and [o for a, o in p.conds if a[0] == "discr" and a[1] == ("call", e[1], e[2], e[4])] == ["None"] for i, op, e in ops)
+        for w in cls:
+            n += 1
+            ctx = "/".join(f"{k.rsplit('::', 1)[-1]}={'|'.join(sorted(v))}" for k, v in sorted(r.ctx.items()) if k in ("event::Scenario", "event::Step", "event::Hook"))
+            if w.path[-1] == "passed":
+                R.check(removed_none or (absent_learned and present is not True), f"passed-only-if-unmarked/{ctx}", w.site, "passed += 1 only where no marker was found",
+                        f"`scenarios.passed` is incremented ({ctx}) on a path that did not learn the scenario's marker to be absent: a scenario already counted as failed / skipped is counted as passed too")
+            else:
+                R.check(present is True, f"classified-stays-marked/{w.path[-1]}/{ctx}", w.site, f"scenarios.{w.path[-1]} += 1 leaves the marker in place",
+                        f"`scenarios.{w.path[-1]}` is incremented ({ctx}) but the scenario's marker is not in place when the handler returns "
+                        f"({'learned absent / removed, and not inserted' if present is False else 'never inserted nor found'}): Scenario::Finished will count the same scenario as passed as well")
+    R.floor(4)
+
+
+RULES = [("R5", r5, None), ("R1", r1, None), ("R2", r2, None), ("R3", r3, None), ("R4", r4, None), ("R6", r6, None), ("R7", r7, None)]
